@@ -45,14 +45,6 @@ def catTys (c : Json) : Except String (List (List Ty)) := do
       | some τ => pure τ
       | none => throw "unknown column type"
 
-def hasUnion : Query → Bool
-  | .setop .union _ _ _ => true
-  | .setop _ _ l r => hasUnion l || hasUnion r
-  | .filter _ _ q | .project _ _ q | .distinct q | .sort _ q | .limit _ _ q | .agg _ _ q | .groupingSets _ _ _ q | .window _ q => hasUnion q
-  | .join _ _ _ _ _ l r => hasUnion l || hasUnion r
-  | .withCte _ b => hasUnion b
-  | _ => false
-
 def handler : Driver.Handler := fun c i => do
   -- raw-stream cases (type-blind statements of the C29 grammar) carry no plan: only O applies to them
   let raw := (c.getObjValAs? String "kind").toOption == some "raw"
@@ -101,12 +93,8 @@ def handler : Driver.Handler := fun c i => do
   let kNames := expNames.isEmpty || (expNames.length == result.length &&
     (List.zip expNames (result.map (·.1))).all (fun (e, n) => match e with | some s => s == n | none => true))
   let nb := (i.getObjValAs? Nat "nbatches").toOption.getD 0
-  let attr : Option String :=
-    match o with
-    | some _ =>
-      if badBatchNames && !badBatchTypes && !badArrays && planF == some result
-         && (hasUnion plan || (raw && (((Driver.getStr c "sql").toOption.getD "").splitOn " UNION ").length > 1)) then some "C30-F1" else none
-    | none => none
+  -- no open finding of this property: every O-failure is a new VIOLATION
+  let attr : Option String := none
   let tags := ["status:ok", if model.isSome then "model:typed" else "model:none", if nb == 0 then "batches:0" else "batches:some"]
               ++ (if !kTypes then ["k:types"] else []) ++ (if !kNames then ["k:names"] else []) ++ tags0
   pure { model := modelJson, k := kTypes && kNames, oracle := o, nt := model.isSome || raw, tags := tags, attr := attr }
